@@ -188,17 +188,16 @@ def valid_qualified_name(self: "NamespaceManager", qname: "Val") -> "Opt[QN]":
     ensures("result-prefix-well-formed", implies(result is not None, ":" not in the(result).namespace.prefix
                                                   and the(result).namespace.prefix != "_"))
     ghost_set(self, "handed", set_add(old(self.handed), the(result)) if result is not None else old(self.handed))
-    requires("text-well-formed", WellFormedText(qname))
-    ensures("parent-handed", implies(self.parent is not None and old(InvHanded(self.parent)), InvHanded(self.parent)),
+    ensures("parent-handed", implies(self.parent is not None and WellFormedText(qname) and old(InvHanded(self.parent)), InvHanded(self.parent)),
             unless=DefaultCompactable(self, qname), finding="KF-C03-compaction-into-default")
-    ensures("result-well-formed", implies(result is not None and GivenNameWellFormed(qname), WellFormedName(the(result))),
+    ensures("result-well-formed", implies(result is not None and GivenNameWellFormed(qname) and WellFormedText(qname), WellFormedName(the(result))),
             unless=DefaultCompactable(self, qname), finding="KF-C03-compaction-into-default")
     ensures("result-anchored", implies(result is not None, HandedLocal(self, the(result))))
     # full-URI text that a registered namespace can compact denotes that very URI (needed by C18)
     ensures("compaction-keeps-uri", implies((is_str(qname) or is_ident(qname)) and result is not None
                                             and old(CompactionCase(self, TextOf(qname))),
                                             the(result).uri == TextOf(qname)))
-    ensures("handed-still-resolve", implies(GivenNameWellFormed(qname) and old(InvHanded(self))
+    ensures("handed-still-resolve", implies(GivenNameWellFormed(qname) and WellFormedText(qname) and old(InvHanded(self))
                                             and implies(self.parent is not None, old(InvHanded(self.parent))),
                                             InvHanded(self)),
             unless=DefaultCompactable(self, qname), finding="KF-C03-compaction-into-default")
